@@ -32,7 +32,7 @@ type whHook struct {
 	Fence         fenceSpec  `json:"fence"` // Cmd may also be NEARBY
 	Meta          bool       `json:"meta,omitempty"`
 	StartClosedMs int        `json:"start_closed_ms,omitempty"`
-	Script        []epAction `json:"script"` // consumed one per arriving request; afterwards always ok
+	Script        []epAction `json:"script"`              // consumed one per arriving request; afterwards always ok
 	NameTail      int        `json:"name_tail,omitempty"` // index into hostileTail, appended to hook and twin name
 }
 
